@@ -113,7 +113,10 @@ where
     }
     // (d) differentiating the result returns p within one ulp per coefficient
     for i in 0..n {
-        if exact::ulp_distance(der[i], c[i]) > 1 && !(der[i] == 0.0 && c[i] == 0.0) {
+        // (a quotient c_i/(i+1) in the subnormal range has lost bits for good - gradual underflow is part of the trusted base -
+        // so the round trip may be off by the (i+1)-fold of one subnormal ulp there)
+        let slack = (i as f64 + 1.0) * 5e-324 * 1.5;
+        if exact::ulp_distance(der[i], c[i]) > 1 && !(der[i] == 0.0 && c[i] == 0.0) && !((der[i] - c[i]).abs() <= slack && c[i].abs() < 1e-300) {
             return Err(Fail::new(format!("integral(knot).derivative() coefficient {i} is not within one ulp of the original"), detail(json!({"derivative_of_integral": fjs(&der)}))));
         }
     }
@@ -310,6 +313,28 @@ pub fn check(thorough: bool, _seed: u64) -> Check {
         classes: vec![("knot_x_zero", false), ("knot_x_negative", false), ("knot_x_positive", false), ("scaled_by_2^-60_or_2^40", false), ("knot_on_or_next_to_the_unshifted_antiderivative", false)],
         bounds: json!({"degrees": "0..7", "knot.x": "every whole number -300..300; +-2^k for k = -20..40; 0.5 + 12.5 j for j < 40", "coefficients": "two vectors whose i-th coefficient shrinks like 2^-8i resp. 3^-5i (terms of comparable size at |x| of a few hundred)", "knot.y": "5"}),
     };
+    // coefficients in the lowest normal binades (between MIN_POSITIVE and 16*MIN_POSITIVE): their quotients by 2..8 are subnormal
+    let lowb = Phase {
+        name: "coefficients-in-the-lowest-normal-binades",
+        units: 8,
+        split: 1,
+        body: Box::new(move |unit, cx| {
+            let d = unit;
+            let lane = cx.choose(d + 1);
+            let v = [3e-308, -3e-308, 2.3e-308, 6e-308, -1.2e-307, 1.7e-307, -3.4e-307, 2.2250738585072014e-308][cx.choose(8)];
+            let others = cx.choose(2);
+            let c: Vec<f64> = (0..=d).map(|i| if i == lane { v } else if others == 0 { 0.0 } else { [4e-308, -5e-308, 7e-308, 1e-307][i % 4] }).collect();
+            let knot = Knot { x: [0.0, 1.0, -0.5][cx.choose(3)], y: 0.0 };
+            cx.nontrivial();
+            cx.class(if knot.x == 0.0 { 0 } else if knot.x < 0.0 { 1 } else { 2 });
+            if cx.sampling() {
+                cx.sample(json!({"degree": d, "coefficients": fjs(&c), "knot": [fj(knot.x), fj(knot.y)]}));
+            }
+            by_degree7!(d, knots_leaf(&c, knot, cx))
+        }),
+        classes: vec![("knot_x_zero", false), ("knot_x_negative", false), ("knot_x_positive", false), ("scaled_by_2^-60_or_2^40", false), ("knot_on_or_next_to_the_unshifted_antiderivative", false)],
+        bounds: json!({"degrees": "0..7", "coefficients": "one lane (every lane) in {3e-308,-3e-308,2.3e-308,6e-308,-1.2e-307,1.7e-307,-3.4e-307,MIN_POSITIVE}, the others zero or of the same tiny size", "knot": "x in {0,1,-0.5}, y = 0"}),
+    };
     // knots whose abscissa is next to (not on) a non-zero root of the unshifted antiderivative F0: F0(knot.x) is small by cancellation
     let near_roots: Vec<(Vec<f64>, f64)> = vec![
         (vec![1.0, 1.0], -2.0),                 // F0 = x + x^2/2, root -2
@@ -344,7 +369,7 @@ pub fn check(thorough: bool, _seed: u64) -> Check {
         id: "C07",
         rule: "choice tree: (degree, knot) resp. (degree, (a,b)) unit x one coefficient per lane; each leaf runs the real indefinite / integral / derivative / Segment::integral; non-trivial = >=2 non-zero coefficients (and knot.x not in {0,2} in the first phase)".into(),
         assumptions: vec!["one ulp = distance to the neighbouring float of the returned coefficient".into()],
-        phases: vec![knots, definite, extreme, roots_ph, sweep],
+        phases: vec![knots, definite, extreme, roots_ph, sweep, lowb],
         extra: Default::default(),
         controls: vec![],
     }
